@@ -36,7 +36,7 @@ def units(tier, seed):
     us = gen.kernel_units(set(t))
     us += [{'name': f'join/meet lemma {n}x{m}', 'fn': 'unit_lemma', 'args': {'n': n, 'm': m}} for n, m in lem]
     us += _mk.table_units(t)
-    us += _mk.inductive_units(tier) + _mk.skeleton_units(tier, seed)
+    us += _mk.inductive_units(tier) + _mk.skeleton_kernel_units(tier, seed) + _mk.skeleton_units(tier, seed)
     return _mk.order(us)
 
 
